@@ -2034,6 +2034,8 @@ var refs = map[string]ref{
 		if len(p) != 1 { return nil, true, nil }
 		v, ok := conv(ops, p[0], variants.Double)
 		if !ok { return nil, true, nil }
+		// "never a silently substituted value": no integer part for a value that is not a number or beyond the range of a long
+		if x := math.Trunc(v.AsDouble()); math.IsNaN(x) || x < -9223372036854775808.0 || x >= 9223372036854775808.0 { return nil, true, nil }
 		return variants.VariantFromLong(int64(math.Trunc(v.AsDouble()))), false, nil
 	},
 	"Empty": func(p []*variants.Variant, ops variants.IVariantOperations) (*variants.Variant, bool, func(*variants.Variant) bool) {
@@ -2081,6 +2083,10 @@ func TestVerifReplay(t *testing.T) {
 	var gen func(cur []*variants.Variant, n int)
 	gen = func(cur []*variants.Variant, n int) { lists = append(lists, append([]*variants.Variant{}, cur...)); if n == 0 { return }; for _, v := range pool { gen(append(cur, v), n-1) } }
 	gen(nil, @DEPTH@)
+	// arguments no integer or real function value exists for: not a number, the infinities, doubles far beyond the range of a long
+	for _, x := range []float64{math.NaN(), math.Inf(1), math.Inf(-1), 1e300, -1e300, 9223372036854775808.0, -9223372036854775808.0} {
+		lists = append(lists, []*variants.Variant{variants.VariantFromDouble(x)})
+	}
 	for n := 4; n <= 8; n++ {
 		for _, v := range []*variants.Variant{pool[1], pool[7], pool[11]} {
 			l := make([]*variants.Variant, n)
